@@ -71,6 +71,8 @@ TRY_SITES = [
     ('duration_from_unicode', 'spyne.protocol._inbase', 'InProtocolBase.duration_from_unicode'),
     ('unicode_from_bytes', 'spyne.protocol._inbase', 'InProtocolBase.unicode_from_bytes'),
     ('from_base64', 'spyne.model.binary', 'ByteArray.from_base64'),
+    ('from_urlsafe_base64', 'spyne.model.binary', 'ByteArray.from_urlsafe_base64'),
+    ('from_hex', 'spyne.model.binary', 'ByteArray.from_hex'),
     ('wsgi_handle_rpc', 'spyne.server.wsgi', 'WsgiApplication.handle_rpc'),
     ('wsgi_reconstruct', 'spyne.server.wsgi', 'WsgiApplication.__reconstruct_wsgi_request'),
 ]
@@ -164,6 +166,8 @@ GUARDS = [
     ('g_json_validate_dt', 'spyne.protocol.json', 'JsonDocument.validate',
      "val is not None and issubclass(cls, (DateTime, Date, Time)) and (not (isinstance(val, six.string_types) and "
      "cls.validate_string(cls, val)))", 'raise'),
+    ('g_urlsafe_text_to_bytes', 'spyne.model.binary', 'ByteArray.from_urlsafe_base64',
+     "isinstance(value, six.text_type)", 'encode'),
     ('g_inbase_enum_member', 'spyne.protocol._inbase', 'InProtocolBase.enum_base_from_bytes',
      "not value in cls.__values__", 'raise'),
 ]
@@ -260,6 +264,12 @@ class Translator(object):
         fr = self.fault_of_raise(mod, last, where)
         if fr is not None:
             return 'HFault %s %s' % (fr[0], gtext(fr[1]))
+        if isinstance(last, ast.If) and last.orelse:
+            # if ...: raise F(...) else: raise F(...): the same fault either way
+            a = self.fault_of_raise(mod, last.body[-1], where)
+            b = self.fault_of_raise(mod, last.orelse[-1], where)
+            if a is not None and a == b:
+                return 'HFault %s %s' % (a[0], gtext(a[1]))
         if isinstance(last, ast.Raise) and (last.exc is None or (
                 isinstance(last.exc, ast.Name) and last.exc.id == h.name)):
             return 'HReraise'
@@ -318,6 +328,18 @@ class Translator(object):
                     return 'mkguard true EException []'
                 if kind == 'assign' and isinstance(body[-1], ast.Assign):
                     return 'mkguard true EException []'
+                if kind == 'encode':
+                    # if isinstance(value, str): value = value.encode(...) as a statement of the
+                    # function body, before the try
+                    # (possibly under its own try), before the try around the decoder
+                    stmts = fn.body
+                    enc = [b0 for b0 in ast.walk(node)
+                           if isinstance(b0, ast.Assign) and isinstance(b0.value, ast.Call)
+                           and isinstance(b0.value.func, ast.Attribute) and b0.value.func.attr == 'encode'
+                           and ast.unparse(b0.targets[0]) == ast.unparse(b0.value.func.value)]
+                    if enc and not node.orelse and node in stmts \
+                            and any(isinstance(s, ast.Try) for s in stmts[stmts.index(node) + 1:]):
+                        return 'mkguard true EException []'
         return 'mkguard false EException []'
 
     # ---- skeletons
